@@ -196,6 +196,53 @@ def estimate_dtype(ctx):
                     f"{PX}:{w.lineno}")
 
 
+def slip_branch_jy(ctx, rule="C27.R8"):
+    """d/dx and d/dy of the slip residual differ by the inner derivative of arg = rho x - y: rho for x, -1 for y.  Jx = rho F and Jy = I - F
+    with the same F = radius (I - d d^T) / |arg|.  Building Jy from a buffer that already holds rho F (scaled in place) gives I - rho F."""
+    rep = ctx.rep
+    sph = ctx.model.cls("Sphere", PX)
+    jac = sph.methods.get("Jacobian")
+    C = f"{PX}:Sphere.Jacobian"
+    slip = None
+    for w in ast.walk(jac):
+        if isinstance(w, ast.If) and norm_src(w.test) == "active_set":
+            slip = w.orelse
+    if not slip:
+        rep.ok(rule, C, "no slip branch found (no verdict)", verdict="unknown", trivial=True)
+        return
+    # sequential environment: name -> expression text with earlier names substituted (in-place `X *= k` counts as X = X * k)
+    STOP = {"arg", "norm_arg", "direction", "radius", "nx", "nr"}
+    env = {}
+
+    def names(e):
+        out = set()
+        for x in ast.walk(e):
+            if isinstance(x, ast.Name):
+                if x.id in env and x.id not in STOP:
+                    out |= env[x.id]
+                else:
+                    out.add(x.id)
+        return out
+    jy = None
+    for st in slip:
+        if isinstance(st, ast.Assign) and len(st.targets) == 1 and isinstance(st.targets[0], ast.Name):
+            env[st.targets[0].id] = names(st.value)
+            if st.targets[0].id == "Jy":
+                jy = st
+        elif isinstance(st, ast.AugAssign) and isinstance(st.target, ast.Name):
+            env[st.target.id] = env.get(st.target.id, {st.target.id}) | names(st.value)
+            if st.target.id == "Jy":
+                jy = st
+    if jy is None:
+        rep.ok(rule, C, "no definition of Jy in the slip branch (no verdict)", verdict="unknown", trivial=True)
+        return
+    if "rho" in env["Jy"]:
+        rep.bad(rule, C, jy, f"`{norm_src(jy)[:60]}` depends on `rho` outside `arg` (through {sorted(n_ for n_ in env['Jy'] if n_ in env and 'rho' in env[n_] and n_ not in STOP) or 'its own expression'}): "
+                "the reported Jy is I - rho F instead of I - F; Jx + Jy = I only for rho = 1", f"{PX}:{jy.lineno}")
+    else:
+        rep.ok(rule, C, f"`{norm_src(jy)[:60]}`: no explicit factor rho")
+
+
 def stick_branch_jacobian(ctx, rule="C27.R7"):
     """In the stick branch the implemented residual is one of its arguments itself (`return x`: the modified equation of the active-set
     strategy).  Its derivative is then exact and trivial: identity with respect to that argument, zero with respect to the others.  The
@@ -248,6 +295,8 @@ def stick_branch_jacobian(ctx, rule="C27.R7"):
 
 def run(ctx):
     rep = ctx.rep
+    rep.rule("C27.R8", "slip branch: the y-derivative of the residual y + radius * arg / |arg| sees rho only through arg = rho x - y (d arg / dy = -1): after inlining, Jy carries no explicit factor rho", 1)
+    slip_branch_jy(ctx)
     rep.rule("C27.R7", "stick branch: the Jacobian the ball reports is the derivative of the residual it implements there (the bare argument x): identity in x, zero in y and z", 3)
     stick_branch_jacobian(ctx)
     rep.rule("C27.R6", "Sphere.residual and Sphere.Jacobian normalise the slip argument with the same plain norm", 3)
@@ -440,4 +489,12 @@ MUTANTS += [
 MUTANTS += [
     dict(id="c27-r7-seed", canary=True, what="[seeded by sub-agent] Sphere.Jacobian stick branch 'corrected' to Jx = rho * eye (derivative of the unmodified equation, not of residual())", file=PX,
          old="            Jx = np.eye(nx)\n", new="            Jx = rho * np.eye(nx)\n", expect="C27.R7"),
+]
+
+MUTANTS += [
+    dict(id="c27-r8-seed", canary=True, what="[seeded by sub-agent] Sphere.Jacobian slip branch: Jx scaled in place by rho * radius / |arg| and Jy taken from that buffer (I - rho F)", file=PX,
+         old='            factor = radius * (np.eye(nx) - np.outer(direction, direction)) / norm_arg\n\n            Jx = factor * rho\n            Jy = np.eye(nx) - factor\n', new='            Jx = np.eye(nx) - np.outer(direction, direction)\n            Jx *= rho * radius / norm_arg\n            Jy = np.eye(nx) - Jx\n', expect="C27.R8"),
+]
+NEUTRAL += [
+    dict(id="c27-n-r8", canary=True, what="Sphere.Jacobian slip branch: the common factor scaled in place BEFORE rho enters", file=PX, old='            factor = radius * (np.eye(nx) - np.outer(direction, direction)) / norm_arg\n\n            Jx = factor * rho\n            Jy = np.eye(nx) - factor\n', new='            factor = np.eye(nx) - np.outer(direction, direction)\n            factor *= radius / norm_arg\n\n            Jx = factor * rho\n            Jy = np.eye(nx) - factor\n'),
 ]
